@@ -191,4 +191,36 @@ theorem C03_float_constant (D : Dom) (P : Prec) (d : String) (neg : Bool) (i : N
   refine ⟨?_, C03_parse_render_num P d _, ev_buildN D r d _⟩
   cases neg <;> simp [buildN, build, render, wrapS]
 
+/-! ## `IntCol == <float constant>`: normalised or refused, never re-valued -/
+
+/-- `Cls.q.<IntCol> == x` / `!=` (either way round) with a float `x`: a whole-number float is replaced by
+    that int, a float with a fractional part makes the constructor raise `Invalid` (`coerce = none`:
+    no SQL is produced); every other tree is left as it is. -/
+theorem C03_intcol_eq_float (c : Nat) (neg : Bool) (i n : Nat) :
+    coerce (E.cmp .eq (.col c) (.wconst neg i n)) = some (E.cmp .eq (.col c) (.const (wholeVal neg n))) ∧
+    coerce (E.cmp .ne (.wconst neg i n) (.col c)) = some (E.cmp .ne (.const (wholeVal neg n)) (.col c)) ∧
+    coerce (E.cmp .eq (.col c) (.fconst neg i)) = none ∧
+    coerce (E.cmp .ne (.fconst neg i) (.col c)) = none ∧
+    coerce (E.cmp .lt (.col c) (.fconst neg i)) = some (E.cmp .lt (.col c) (.fconst neg i)) ∧
+    coerce (E.cmp .eq (.rcol c) (.fconst neg i)) = some (E.cmp .eq (.rcol c) (.fconst neg i)) := by
+  simp [coerce, coerceCmp]
+
+/-- Whenever construction succeeds, the tree that is built (`coerce e = some e'`, then `build e'`,
+    to which every theorem above applies) has the meaning of the tree that was written — in every
+    number domain in which the whole-number float literals of the tree compare like their integers. -/
+theorem C03_coerce_keeps_meaning (D : Dom) (r : Row D) {s : Srt} (e e' : E s)
+    (hw : WholeOk D e) (hc : coerce e = some e') : eval D r e' = eval D r e :=
+  (eval_coerce D r e e' hw hc).1
+
+/-- … so the filter that is sent selects exactly the rows on which the written tree is true -/
+theorem C03_filter_sound_coerced (D : Dom) (P : Prec) (d : String) (e e' : BoolE) (r : Row D)
+    (hw : WholeOk D e) (hc : coerce e = some e') :
+    selected D P d e' r = true ↔ evalB D r e = some true := by
+  rw [C03_filter_sound]
+  have := C03_coerce_keeps_meaning D r e e' hw hc
+  simp only [evalB, this]
+
+example : coerce (E.andOp (.cmp .eq (.col 0) (.fconst false 3)) (.cmp .lt (.col 1) (.const 2))) = none := by
+  simp [coerce, coerceCmp]
+
 end SqlObjVerif.Expr
